@@ -1,0 +1,136 @@
+//go:build verif
+
+package database
+
+// Contracts for govc (contract-based deductive verification). Comment-only: this file
+// contributes no declarations and is compiled only with -tags verif.
+
+// ---- transactions (C14) ----------------------------------------------------------------
+// Begin yields an open transaction; Transaction leaves it committed exactly when the callback
+// returned nil and Commit succeeded, rolled back when the callback returned an error or panicked
+// (the panic propagates after the rollback), and never open.
+
+//@ func (*SQLiteDB).Begin
+//@   trusted
+//@   modifies nothing
+//@   ensures err == nil ==> result != nil && fresh(result) && txstate(result) == 0
+//@   ensures err != nil ==> result == nil
+//@ func (*PostgresDB).Begin
+//@   trusted
+//@   modifies nothing
+//@   ensures err == nil ==> result != nil && fresh(result) && txstate(result) == 0
+//@   ensures err != nil ==> result == nil
+//@ func (*MySQLDB).Begin
+//@   trusted
+//@   modifies nothing
+//@   ensures err == nil ==> result != nil && fresh(result) && txstate(result) == 0
+//@   ensures err != nil ==> result == nil
+
+// the deferred recovery closure: while panicking it rolls the transaction back and panics again
+//@ func (*SQLiteDB).Transaction$1
+//@   maypanic
+//@   requires tx != nil
+//@   modifies txstate(tx)
+//@   ensures !old(panicking()) && txstate(tx) == old(txstate(tx))
+//@   ensures_on_panic old(panicking()) && (old(txstate(tx)) == 0 ==> txstate(tx) == 2)
+//@ func (*PostgresDB).Transaction$1
+//@   maypanic
+//@   requires tx != nil
+//@   modifies txstate(tx)
+//@   ensures !old(panicking()) && txstate(tx) == old(txstate(tx))
+//@   ensures_on_panic old(panicking()) && (old(txstate(tx)) == 0 ==> txstate(tx) == 2)
+//@ func (*MySQLDB).Transaction$1
+//@   maypanic
+//@   requires tx != nil
+//@   modifies txstate(tx)
+//@   ensures !old(panicking()) && txstate(tx) == old(txstate(tx))
+//@   ensures_on_panic old(panicking()) && (old(txstate(tx)) == 0 ==> txstate(tx) == 2)
+
+//@ func (*SQLiteDB).Transaction
+//@   requires s != nil && !panicking()
+//@   param fn maypanic
+//@   param fn modifies everything
+//@   param fn ensures txstate(arg0) == old(txstate(arg0))
+//@   check tx != nil ==> txstate(tx) != 0
+//@   check tx != nil && result == nil ==> txstate(tx) == 1
+//@   check tx != nil && txstate(tx) == 1 ==> result == nil
+//@   ensures_on_panic tx != nil ==> txstate(tx) == 2
+//@ func (*PostgresDB).Transaction
+//@   requires p != nil && !panicking()
+//@   param fn maypanic
+//@   param fn modifies everything
+//@   param fn ensures txstate(arg0) == old(txstate(arg0))
+//@   check tx != nil ==> txstate(tx) != 0
+//@   check tx != nil && result == nil ==> txstate(tx) == 1
+//@   check tx != nil && txstate(tx) == 1 ==> result == nil
+//@   ensures_on_panic tx != nil ==> txstate(tx) == 2
+//@ func (*MySQLDB).Transaction
+//@   requires m != nil && !panicking()
+//@   param fn maypanic
+//@   param fn modifies everything
+//@   param fn ensures txstate(arg0) == old(txstate(arg0))
+//@   check tx != nil ==> txstate(tx) != 0
+//@   check tx != nil && result == nil ==> txstate(tx) == 1
+//@   check tx != nil && txstate(tx) == 1 ==> result == nil
+//@   ensures_on_panic tx != nil ==> txstate(tx) == 2
+
+// ORM statements run on the transaction carried by the context whenever there is one.
+//@ spec func ctxtx(ctx context.Context) *sql.Tx
+//@ func txFromContext
+//@   trusted
+//@   modifies nothing
+//@   ensures result == ctxtx(ctx)
+//@ func (*ORM).query
+//@   requires o != nil
+//@   callpre (database.Database).Query ctxtx(ctx) == nil
+//@   callpre (*sql.Tx).QueryContext arg0 == ctxtx(ctx) && arg0 != nil
+//@ func (*ORM).queryRow
+//@   requires o != nil
+//@   callpre (database.Database).QueryRow ctxtx(ctx) == nil
+//@   callpre (*sql.Tx).QueryRowContext arg0 == ctxtx(ctx) && arg0 != nil
+//@ func (*ORM).exec
+//@   requires o != nil
+//@   callpre (database.Database).Exec ctxtx(ctx) == nil
+//@   callpre (*sql.Tx).ExecContext arg0 == ctxtx(ctx) && arg0 != nil
+
+// A bulk insert issues exactly one statement carrying all rows (so it is all-or-nothing in the engine).
+//@ ghost nexec() int
+//@ func (*SQLiteDB).Exec
+//@   trusted
+//@   modifies ghost(nexec)
+//@   ensures nexec() == old(nexec()) + 1
+//@ func (*PostgresDB).Exec
+//@   trusted
+//@   modifies ghost(nexec)
+//@   ensures nexec() == old(nexec()) + 1
+//@ func (*MySQLDB).Exec
+//@   trusted
+//@   modifies ghost(nexec)
+//@   ensures nexec() == old(nexec()) + 1
+//@ func SanitizeSQLiteIdentifiers
+//@   trusted
+//@   modifies nothing
+//@ func SanitizeIdentifiers
+//@   trusted
+//@   modifies nothing
+//@ func SanitizeMySQLIdentifiers
+//@   trusted
+//@   modifies nothing
+//@ func (*SQLiteDB).BulkInsert
+//@   requires s != nil
+//@   ensures nexec() == old(nexec()) || nexec() == old(nexec()) + 1
+//@   ensures result == nil && len(values) > 0 ==> nexec() == old(nexec()) + 1
+//@   loop 1 invariant nexec() == old(nexec())
+//@   loop 2 invariant nexec() == old(nexec())
+//@ func (*PostgresDB).BulkInsert
+//@   requires p != nil
+//@   ensures nexec() == old(nexec()) || nexec() == old(nexec()) + 1
+//@   ensures result == nil && len(values) > 0 ==> nexec() == old(nexec()) + 1
+//@   loop 1 invariant nexec() == old(nexec())
+//@   loop 2 invariant nexec() == old(nexec())
+//@ func (*MySQLDB).BulkInsert
+//@   requires m != nil
+//@   ensures nexec() == old(nexec()) || nexec() == old(nexec()) + 1
+//@   ensures result == nil && len(values) > 0 ==> nexec() == old(nexec()) + 1
+//@   loop 1 invariant nexec() == old(nexec())
+//@   loop 2 invariant nexec() == old(nexec())
